@@ -278,6 +278,13 @@ func cmdCheck(args []string) {
 	// 3. solve
 	rs := solveAll(obs, sv, 16)
 	dbg("solved")
+	for i := range rs {
+		for _, tr := range rs[i].Res.Tried {
+			if strings.Contains(tr, ":error:") {
+				broken("solver rejected the query of %s (%s): %s\n%s", rs[i].O.Name, tr, rs[i].Res.File, firstLines(rs[i].Res.Output, 4))
+			}
+		}
+	}
 	for i := 0; i < ngu; i++ {
 		g := <-gout
 		guards += g.n
